@@ -14,7 +14,7 @@ git stash pop -q
 cd /verif
 git -C /repo apply $D/patch.diff || { echo "PATCH DOES NOT APPLY"; exit 1; }
 echo "--- check $P quick with patch applied:"
-VERIF_BUDGET_SCALE=${SCALE:-1} ./check $P quick > $D/check.log 2>&1; echo "check exit=$?" | tee -a $D/check.log
+VERIF_NO_EVIDENCE=1 VERIF_BUDGET_SCALE=${SCALE:-1} ./check $P quick > $D/check.log 2>&1; echo "check exit=$?" | tee -a $D/check.log
 git -C /repo checkout -- .
 grep -E "^VIOLATION" $D/check.log | head -3 | cut -c1-300
 tail -1 $D/check.log | cut -c1-200
